@@ -14,7 +14,11 @@ FIELDS = ["error_num", "error_str", "cipher", "mac", "zip", "realm_len", "realm"
 
 class Oracle:
     def __init__(self, exe, keyfile, **conf):
-        self.p = subprocess.Popen([exe, keyfile], stdin=subprocess.PIPE, stdout=subprocess.PIPE, text=True)
+        def _big_stack():
+            import resource
+            resource.setrlimit(resource.RLIMIT_STACK, (resource.RLIM_INFINITY, resource.RLIM_INFINITY))
+        self.p = subprocess.Popen([exe, keyfile], stdin=subprocess.PIPE, stdout=subprocess.PIPE, text=True,
+                                  preexec_fn=_big_stack)   # list-based code recurses as deep as the payload is long
         if conf:
             self.conf(**conf)
 
